@@ -69,9 +69,8 @@ public:
   {
     if(&other == this)
       return *this;
-    clear();
-    for(const Item* i = other._begin.item, * end = &other.endItem; i != end; i = i->next)
-      append(i->key, i->value);
+    HashMap copy(other); // other may be owned by one of the elements: they are destroyed only after it has been copied
+    swap(copy);
     return *this;
   }
 
